@@ -108,6 +108,20 @@ def run(tier, seed):
                 cases.append((arch, (header + f"MAC2 {a}, {b}\n@db 9\n").encode(), "", "macro-args"))
     for a in argp:
         cases.append(("6502", (header + f"@each T, {a}\n@db T\n@endeach\n@string {a}\n@label {a}\n").encode(), "", "macro-args"))
+    # selector operands (bit index, restart vector, interrupt mode) at and beyond their edges
+    sel_vals = ["-$80000000", "-129", "-128", "-64", "-9", "-8", "-1", "0", "1", "7", "8", "9", "$38", "$39", "$40", "255", "256", "65536", "$7fffffff", "$ffffffff", "1-2", "later"]
+    for arch, forms in (("z80", ["bit {0}, a", "res {0}, (hl)", "set {0}, (ix+1)", "rst {0}", "im {0}", "bit {0}, (iy+{0})", "res {0}, (ix+1), b"]),
+                        ("sm83", ["bit {0}, a", "res {0}, a", "set {0}, (hl)", "rst {0}", "res {0}, (hl)", "stop {0}", "ldh a, ({0})", "add sp, {0}", "ld hl, sp+{0}"]),
+                        ("6502", ["lda #{0}", "lda {0}", "lda ({0}), y", "lda ({0}, x)", "jmp ({0})", "bne {0}", "asl {0}, x", "ldx {0}, y"])):
+        for f in forms:
+            for v in sel_vals:
+                cases.append((arch, (f"  {f.format(v)}\n@defl later, -1\n").encode(), "", "selectors"))
+    # every directive form inside an ADDR segment, with and without operands / forward references
+    addr_forms = ["@db", "@db 1", "@db fwd", '@db "s"', "@dw", "@dw 1", "@dw fwd", "@ds 2", "@ds 2, 1", "@ds 2, fwd", "@ds fwd", "@ds 0, fwd", "@align 4", "@align fwd",
+                  "@org fwd", "@org $10", '@incbin "m.asm"', "@assert fwd", "@assert fwd == 5", "lab:", "@defl q, fwd", "@meta \"A\" \"B\"", "@struct S\n f 1\n@endstruct", "nop"]
+    for a in addr_forms:
+        for b in addr_forms:
+            cases.append(("6502", f'@segment "ADDR"\n{a}\n{b}\n@segment "CODE"\n@db 1\n@defl fwd, 5\n'.encode(), "", "addr-segment"))
     faults = ["@endif\n", "@endmacro\n", "@endeach\n", "@endstruct\n", "}\n", "{\n", "@if 0\n", "@defn Z, Z\n", "@db 1/0\n", "Q: Q:\n", '@meta "@SIZEOF" "x"\n', "@each T, {\n", "@struct\n", "\\\n"]
     for _ in range(3000 if tier == "quick" else 60000):
         arch = rng.choice(["6502", "z80", "sm83"])
